@@ -413,6 +413,15 @@ def outcomes(stmts, scope: Scope | None = None, env: dict | None = None, atom=No
         if isinstance(s, ast.If):
             test = res(s.test, env, conds)
             v = eval_bool(test, atom) if atom is not None else None
+            if v is None and len(s.body) == 1 and len(s.orelse) == 1 and all(
+                    isinstance(b_, ast.Assign) and len(b_.targets) == 1 and isinstance(b_.targets[0], ast.Name) for b_ in (s.body[0], s.orelse[0])) \
+                    and s.body[0].targets[0].id == s.orelse[0].targets[0].id and not any(isinstance(x, ast.NamedExpr) for x in ast.walk(s)):
+                # `if c: x = A` / `else: x = B` under a condition nothing decides: one path on which x = A if c else B
+                folded = ast.copy_location(ast.Assign(targets=[ast.Name(id=s.body[0].targets[0].id, ctx=ast.Store())],
+                                                      value=ast.IfExp(test=s.test, body=s.body[0].value, orelse=s.orelse[0].value)), s)
+                ast.fix_missing_locations(folded)
+                folded._parent = getattr(s, "_parent", None)  # type: ignore[attr-defined]
+                return walk([folded] + list(rest), env, conds, events, cont, seq)
             # walrus bindings inside the test
             env2 = dict(env)
             for n in ast.walk(s.test):
